@@ -85,14 +85,14 @@ M0_OFFSET = {'PAYLOAD': 6, 'REQUEST_RESPONSE': 6, 'REQUEST_FNF': 6, 'REQUEST_STR
 
 class C04(Prop):
     id = 'C04'
-    lean_modules = ['RSocketModel.Props.C04', 'RSocketModel.Props.C04Transport']
+    lean_modules = ['RSocketModel.Props.C04', 'RSocketModel.Props.C04Transport', 'RSocketModel.Props.C04Link']
     technique = 'Lean 4 proof (well-founded induction on the buffer, decoder-parametric) + differential correspondence with FrameParser / TransportTCP'
     level_text = ('c04_chunking_independent, c04_any_two_chunkings, c04_frames_exact(_chunked), c04_truncated_tail, c04_message_mode are kernel-checked for every '
                   'per-frame decoder, every frame sequence and every partition into reads; the model is a transcription of FrameParser.receive_data and is run '
                   'against the real parser (stub decoder on both sides) and against TransportTCP, TransportAioHttpWebsocket and the QUIC transport with the real decoder. '
                   'Transport.lean models the receiver loop over TransportTCP.next_frame_generator read by read (data / end of stream / failing read) and over the queue of a message transport: '
                   'c04_tcp_reads_then_eof (whatever arrived complete before the end of the stream is dispatched, also from the last read, however read() cut it), c04_tcp_any_two_read_sequences, c04_tcp_frames_exact, '
-                  'c04_tcp_error_after_reads, c04_tcp_open_is_parser, c04_tcp_empty_read_is_eof, c04_msg_queue_exact; compared with a real TransportTCP over a real StreamReader on scripted reads.')
+                  'c04_tcp_error_after_reads, c04_tcp_open_is_parser, c04_tcp_empty_read_is_eof, c04_msg_queue_exact; c04_tcp_link_exact (Props/C04Link.lean) composes codec, partial writes, parser and transport loop: the writes of TransportTCP.send_frame for any list of legal frames, read back in any non-empty pieces and followed by the end of the stream, are dispatched as exactly those frames; compared with a real TransportTCP over a real StreamReader on scripted reads.')
     level_note = ('Trusted: Lean kernel + standard axioms; model fidelity as far as the correspondence reaches; asyncio.StreamReader.read semantics; '
                   'bytearray slicing = List.take/drop.')
     design_ref = '§5 C04'
